@@ -183,6 +183,7 @@ def judge(case):
     sut.reset(provider)
     fails = []
     tree = case["tree"]
+    del T.ARG_MUTATIONS[:]
     try:
         pre = []
         root = T.build(tree, provider, into=pre)
@@ -195,6 +196,8 @@ def judge(case):
         back = Component.from_ical(raw)
     except Exception as e:
         return [Failure("C02.parse", "parse-raises/" + exc_signature(e), f"{e!r} raw={raw[:300]!r}"[:500])]
+    for m_ in T.ARG_MUTATIONS[:2]:       # the caller's own objects (value lists, parameter dicts) are not the library's to edit
+        fails.append(Failure("C02.build", "argument-object-changed-in-place", m_))
     nodes = list(T.preorder(tree))
     got_nodes = back.walk()
     if [n["c"].upper() for n in nodes] != [c.name for c in got_nodes]:
